@@ -440,6 +440,8 @@ func init() {
 		base10 := eq(a[2].T, "10")
 		e.assume(st, and(implies(base10, eq(ok, "(str.in_re "+a[1].T+" "+reDecimal+")")),
 			implies(and(base10, ok), "(= "+nv+" (decval "+a[1].T+"))"),
+			// redundant consequence of the line above, stated to spare the string solver a regular-expression inclusion proof
+			implies(and(base10, "(str.in_re "+a[1].T+" (re.* (re.range \"0\" \"9\")))", "(not (= "+a[1].T+" \"\"))"), ok),
 			implies(and(base10, "(str.in_re "+a[1].T+" (re.+ (re.range \"0\" \"9\")))"), "(= (decval "+a[1].T+") (str.to_int "+a[1].T+"))")))
 		h := e.heapIn(st, "BIGVAL", "(Array Int Int)")
 		e.setHeapIn(st, "BIGVAL", "(Array Int Int)", store(h, a[0].T, nv))
